@@ -123,6 +123,7 @@ def check():
         "model/Matrix.v writes the Rust loops in closed form per output cell; that reading is what the replay validates",
     ]
     broken = []
+    common.regenerate()
     import os
     if os.path.exists(os.path.join(common.COQ, "props", "C17.v")):
         ok, detail = common.proof_stage(rep, "C17.v")
